@@ -66,6 +66,10 @@ type Tx struct {
 	writable               bool
 	pendingWrites          []*Entry
 	ReservedStoreTxIDIdxes map[int64]*BPTree
+	// lockHeld is set for the transaction Merge uses to rewrite entries: Merge
+	// already holds the database lock, so this transaction must not take or
+	// release it.
+	lockHeld bool
 }
 
 // Begin opens a new transaction.
@@ -608,6 +612,9 @@ func (tx *Tx) Rollback() error {
 
 // lock locks the database based on the transaction type.
 func (tx *Tx) lock() {
+	if tx.lockHeld {
+		return
+	}
 	if tx.writable {
 		tx.db.mu.Lock()
 	} else {
@@ -617,6 +624,9 @@ func (tx *Tx) lock() {
 
 // unlock unlocks the database based on the transaction type.
 func (tx *Tx) unlock() {
+	if tx.lockHeld {
+		return
+	}
 	if tx.writable {
 		tx.db.mu.Unlock()
 	} else {
